@@ -182,3 +182,66 @@ func TestVerifC34(t *testing.T) {
 		}
 	}
 }
+
+// TestVerifC34Live executes the REAL ticker goroutine (StartTimestamps) in real time: bursts of
+// requests run the timestamp ahead of the wall clock, then real one-second ticks happen while it
+// is ahead, while requests continue (direct callers and the real batching client, whose real
+// tsExpire goroutine also runs). No model replay (wall clock); the direct oracle is the property:
+// all stamps distinct, each caller's stamps increasing. On a correct implementation the outcome
+// does not depend on timing; a ticker that moves the timestamp backwards shows as `duplicate`.
+func TestVerifC34Live(t *testing.T) {
+	tr := lib.Open()
+	defer tr.Close()
+	r := lib.Rand()
+	fetches := 0
+	th := core.NewThread(nil)
+	th.SetDbms(vc34Dbms{fetches: &fetches})
+	StartTimestamps()
+	seen := map[string]string{}
+	var lastSrv, lastCl core.Value
+	n := 0
+	check := func(who string, v core.Value, last *core.Value, phase string) {
+		n++
+		key := core.PackValue(v)
+		if prev, dup := seen[key]; dup {
+			tr.Fail("duplicate", fmt.Sprintf("live ticker: timestamp %v handed out to %s was already handed out to %s (%s, request %d; wall clock %v)", v, who, prev, phase, n, core.Now()))
+		}
+		seen[key] = who
+		if *last != nil && v.Compare(*last) <= 0 {
+			tr.Fail("not-increasing", fmt.Sprintf("live ticker: %s received %v after %v (%s, request %d; wall clock %v)", who, v, *last, phase, n, core.Now()))
+		}
+		*last = v
+	}
+	take := func(phase string) {
+		if r.Intn(3) == 0 {
+			check("client", th.Timestamp(), &lastCl, phase)
+		} else {
+			check("server caller", Timestamp(), &lastSrv, phase)
+		}
+	}
+	rounds := 2
+	if lib.Tier() == "thorough" {
+		rounds = 8
+	}
+	for round := 0; round < rounds; round++ {
+		// burst: several seconds worth of stamps (about 600 direct requests use up one second)
+		burst := 2000 + r.Intn(3000)
+		for i := 0; i < burst; i++ {
+			take(fmt.Sprintf("round %d burst of %d", round, burst))
+		}
+		tr.CountN("live-burst-requests", burst)
+		if ahead := lastSrv.(core.SuDate).MinusMs(core.Now()); ahead > 1000 {
+			tr.Count("live-ahead-of-clock")
+		}
+		// real ticks while the timestamp is ahead; keep requesting across them
+		deadline := time.Now().Add(time.Duration(1250+r.Intn(500)) * time.Millisecond)
+		for time.Now().Before(deadline) {
+			take(fmt.Sprintf("round %d across ticks", round))
+			tr.Count("live-requests-across-ticks")
+			time.Sleep(time.Duration(1+r.Intn(20)) * time.Millisecond)
+		}
+		for i := 0; i < 300; i++ {
+			take(fmt.Sprintf("round %d after ticks", round))
+		}
+	}
+}
